@@ -21,7 +21,7 @@ let table : (string * (Model.z -> Model.z -> string)) list = [
   "cast.i64_i32", (fun n _ -> string_of_z (Model.cast_i64_i32 n)); "cast.i64_i16", (fun n _ -> string_of_z (Model.cast_i64_i16 n));
   "cast.u64_i32", (fun n _ -> string_of_z (Model.cast_i64_i32 (Model.cast_u64_i64 n)));
   "cast.abs64", (fun n _ -> string_of_z (Model.cast_abs64 n)); "cast.neg64", (fun n _ -> string_of_z (Model.cast_neg64 n));
-  "cast.i64_dbl", (fun n _ -> string_of_z (Model.cast_i64_dbl n)); "cast.dbl_u64", (fun n _ -> string_of_z (Model.cast_dbl_u64 n));
+  "cast.i64_dbl", (fun n _ -> string_of_z (Model.cast_i64_dbl n)); "cast.mpz_dbl", (fun n _ -> string_of_z (Model.cast_mpz_dbl n)); "cast.dbl_u64", (fun n _ -> string_of_z (Model.cast_dbl_u64 n));
   "cfg.sizeof_long", (fun _ _ -> string_of_z Model.cfg_sizeof_long); "cfg.givaro_sizeof_long", (fun _ _ -> string_of_z Model.cfg_sizeof_long);
   "cfg.limb_bits", (fun _ _ -> string_of_z Model.cfg_limb_bits); "cfg.ulong_max", (fun _ _ -> string_of_z Model.cfg_u64_max);
   "cfg.i64_min", (fun _ _ -> string_of_z Model.cfg_i64_min); "cfg.i64_max", (fun _ _ -> string_of_z Model.cfg_i64_max);
